@@ -13,7 +13,7 @@ rsync -a --exclude .git --exclude node_modules /repo/ "$scratch/"
 (cd "$scratch" && go build ./... ) || { echo "MUTANT DOES NOT COMPILE"; exit 4; }
 rc=0
 for prop in "$@"; do
-  out=$(VERIF_REPO="$scratch" VERIF_DIR="$scratch/.verifout" bash -c 'mkdir -p "$VERIF_DIR/evidence"; cp known_findings.json properties.jsonl "$VERIF_DIR/"; bin/esverif check '"$prop"' --tier quick' 2>&1)
+  out=$(VERIF_REPO="$scratch" VERIF_DIR="$scratch/.verifout" bash -c 'mkdir -p "$VERIF_DIR/evidence"; cp known_findings.json properties.jsonl "$VERIF_DIR/"; ${ESVERIF_BIN:-bin/esverif} check '"$prop"' --tier quick' 2>&1)
   if echo "$out" | grep -q "^VIOLATION property=$prop"; then
     echo "CAUGHT $prop: $(echo "$out" | grep -B1 '^VIOLATION' | grep -v '^VIOLATION' | grep -v '^--' | head -3 | cut -c1-300)"
   else
